@@ -67,6 +67,7 @@ def check_slice(res, f, src, lay, W, marks_by_base, a, b, desc):
     # not part of the range - only at the very start of the string (a == 0, attached to nothing) it is tolerated
     allowed = [(c) for (x, c) in marks_by_base.get("edge%d" % a, [])] if a == 0 else []
     ptr = 0
+    got_marks = {}
     for c in rc:
         if cw(c[0]) > 0:
             k += 1
@@ -79,6 +80,21 @@ def check_slice(res, f, src, lay, W, marks_by_base, a, b, desc):
             res.viol("mark_invented_or_moved", a=a, b=b, desc=desc, got=show(rc), mark=show([c]))
             return
         ptr += 1
+        if k >= 0:
+            got_marks.setdefault(k, []).append(c)
+    # a character lying wholly inside the range, with the range going on past it, is held by the requested columns together
+    # with the marks stacked on it: all of them must be there (only for the character ending exactly at the right edge, or
+    # cut by an edge, the statement leaves the marks open)
+    end_of = {bi: x + w for x, w, c, bi in lay if w > 0}
+    start_of = {bi: x for x, w, c, bi in lay if w > 0}
+    for k, bi in enumerate(sidx):
+        if start_of[bi] >= a and end_of[bi] < min(b, W):
+            want = [m for (x, m) in marks_by_base.get(bi, [])]
+            if got_marks.get(k, []) != want:
+                res.viol("mark_inside_the_range_lost", a=a, b=b, desc=desc, got=show(rc), expected_marks=show(want))
+                return
+            if want:
+                res.label("marks_strictly_inside_range")
 
 
 def run_case(case):
